@@ -12,7 +12,7 @@ Local Open Scope Z_scope.
 
 Inductive res (A : Type) : Type :=
 | Ok (a : A)
-| Err (code : Z)          (* 1 InvalidColorInSixelSequence, 2 UnsupportedSixelColorformat, 3 InvalidPictureSize,
+| Err (code : Z)          (* 1 InvalidColorInSixelSequence, 2 UnsupportedSixelColorformat, 3 InvalidPictureSize (also: beyond MAX_SIXEL_DIMENSION),
                              4 NumberMissingInSixelRepeat, 5 InvalidSixelChar *)
 | Panic (site : Z).       (* 1 arithmetic overflow, 2 index out of bounds, 3 division by zero *)
 Arguments Ok {A} _. Arguments Err {A} _. Arguments Panic {A} _.
@@ -22,6 +22,9 @@ Definition bind {A B} (r : res A) (f : A -> res B) : res B :=
 Notation "'do' x <- r ; k" := (bind r (fun x => k)) (at level 200, x pattern, r at level 100, k at level 200).
 
 Definition I32_MAX : Z := 2147483647.
+(* sixel_mod.rs MAX_SIXEL_DIMENSION (after the fix): largest width / height of an image in pixels; tied to the source constant by
+   translator/gen_sixel.py (Gen/SixelGen.v MAX_SIXEL_DIMENSION_SRC) and the lemma max_dim_tied of Props/C14.v / Props/C03.v *)
+Definition MAX_SIXEL_DIMENSION : Z := 4096.
 Definition chk (x : Z) : res Z := if (x <=? I32_MAX) && (- I32_MAX - 1 <=? x) then Ok x else Panic 1.
 
 (* x.saturating_mul(10).saturating_add(ch as i32).saturating_sub(b'0' as i32), for x >= 0 *)
@@ -114,6 +117,7 @@ Definition translate (s : sx) (ch : Z) : res sx :=
   do y_pos <- chk (cur_y s * 6);
   do last0 <- chk (y_pos + 6);
   let last_line := if hset s && (height (rows s) <? last0) then height (rows s) else last0 in
+  if (MAX_SIXEL_DIMENSION <=? x_pos) || (MAX_SIXEL_DIMENSION <? last_line) then Err 3 else      (* the fix: the image would be wider / taller than the limit *)
   let r := if height (rows s) <? last_line
            then resize (Z.to_nat last_line) (zeros (Z.to_nat (width (rows s)) * 4)%nat) (rows s) else rows s in
   let r := plot 6 0 mask x_pos y_pos last_line fg r in
@@ -161,7 +165,8 @@ Definition finish_size (s : sx) : res sx :=
   let n := length (nums s) in
   if (n <? 2)%nat || (4 <? n)%nat then Err 3 else
   match nums s with
-  | v :: h :: rest => Ok (set_st (declare s v h rest) Read)
+  | v :: h :: rest => if existsb (fun n => MAX_SIXEL_DIMENSION <? n) rest then Err 3        (* the fix: declared width / height beyond the limit *)
+                      else Ok (set_st (declare s v h rest) Read)
   | _ => Err 3
   end.
 
@@ -179,7 +184,8 @@ Definition parse_char (s : sx) (ch : Z) : res sx :=
   | Repeat =>
     if is_digit ch then Ok (set_nums s (push_digit (nums s) ch))
     else match nums s with
-         | i :: _ => do s' <- repeat_data (Z.to_nat i) s ch; Ok (set_st s' Read)
+         | i :: _ => if MAX_SIXEL_DIMENSION <? i then Err 3                                   (* the fix: a repeat count beyond the limit *)
+                     else do s' <- repeat_data (Z.to_nat i) s ch; Ok (set_st s' Read)
          | [] => Err 4
          end
   end.
